@@ -204,7 +204,11 @@ func (g *GRE) SerializeTo(b gopacket.SerializeBuffer, opts gopacket.SerializeOpt
 			binary.BigEndian.PutUint16(buf[offset:offset+2], sre.AddressFamily)
 			buf[offset+2] = sre.SREOffset
 			buf[offset+3] = sre.SRELength
-			copy(buf[offset+4:offset+4+int(sre.SRELength)], sre.RoutingInformation)
+			info := buf[offset+4 : offset+4+int(sre.SRELength)]
+			// Zeroize whatever RoutingInformation does not cover, in case the memory is dirty.
+			for i := copy(info, sre.RoutingInformation); i < len(info); i++ {
+				info[i] = 0
+			}
 			offset += 4 + int(sre.SRELength)
 			sre = sre.Next
 		}
